@@ -318,13 +318,18 @@ func c12Updates(c *lab.Ctx) {
 				}
 			case 10: // delete hosts
 				name := clusterNames[hrng.Intn(len(clusterNames))]
-				a := addrPool[hrng.Intn(len(addrPool))]
-				err := ca.TriggerHostDel(name, []string{a})
-				desc = fmt.Sprintf("hosts-del(%s,%s,err=%v)", name, a, err != nil)
+				var del []string // 1..3 addresses in PRNG order
+				gone := map[string]bool{}
+				for _, i := range hrng.Perm(len(addrPool))[:1+hrng.Intn(3)] {
+					del = append(del, addrPool[i])
+					gone[addrPool[i]] = true
+				}
+				err := ca.TriggerHostDel(name, del)
+				desc = fmt.Sprintf("hosts-del(%s,%v,err=%v)", name, del, err != nil)
 				if cur, ok := model.clusters[name]; ok && err == nil {
 					var nx []string
 					for _, x := range cur {
-						if c12AddrOf(x) != a {
+						if !gone[c12AddrOf(x)] {
 							nx = append(nx, x)
 						}
 					}
